@@ -773,6 +773,81 @@ def binary_sweep(n: int, seed: int) -> Tuple[Dict[str, Any], List[Dict[str, Any]
                              "in one process, binary route vs the harness's own objdump text"}}, viol
 
 
+# --------------------------------------------------------------------------- assumed-contract conformance (thorough tier)
+G_LINE = None
+
+
+def g_classify(line: str) -> Optional[str]:
+    """membership of a line in the assumed objdump grammar G (appendix B of DESIGN.md); None = outside G"""
+    import re
+    global G_LINE
+    if G_LINE is None:
+        H = "[0-9a-f]"
+        G_LINE = [
+            ("insn", re.compile(rf"^ *{H}+:\t(?:{H}{{2}} )+ *\t(?:(?:lock|rep|repz|repnz|data16|addr32|notrack|bnd|cs|ds|es|fs|gs|ss|rex(?:\.[WRXB]+)?|\{{[a-z0-9]+\}}) )*"
+                                rf"(?:[a-z][a-z0-9.]*(?:,p[nt])?|\(bad\))(?: +[^ #\t]+)?(?: +<[^>]*>)?(?: *#.*)? *$")),
+            ("cont", re.compile(rf"^ *{H}+:\t(?:{H}{{2}} )*{H}{{2}} ?$")),
+            ("label", re.compile(rf"^{H}+ <.*>:$")),
+            ("section", re.compile(r"^Disassembly of section .*:$")),
+            ("blank", re.compile(r"^$")),
+            ("elision", re.compile(r"^\t\.\.\.$")),
+            ("header", re.compile(r"^.*file format.*$")),
+        ]
+    for k, r in G_LINE:
+        if r.match(line):
+            return k
+    return None
+
+
+def objdump_conformance(max_lines: int, seed: int) -> Tuple[Dict[str, Any], List[Dict[str, Any]]]:
+    """A-objdump: what objdump -d -M att really prints for the repository's test binaries lies in G, and the real
+    parser decodes every instruction line as the independent model does"""
+    import glob
+    bins = sorted(glob.glob(os.path.join(replay.repo(), "tests", "binary", "*")))
+    viol, outside, total, insn = [], [], 0, 0
+    rnd = random.Random(seed)
+    for b in bins:
+        p = subprocess.run(["objdump", "-d", "-M", "att", b], capture_output=True, text=True)
+        if p.returncode != 0:
+            continue
+        lines = p.stdout.split("\n")
+        if len(lines) > max_lines:
+            start = rnd.randrange(0, len(lines) - max_lines)
+            lines = lines[:50] + lines[start:start + max_lines]
+        total += len(lines)
+        for ln in lines:
+            if g_classify(ln) is None and len(outside) < 20:
+                outside.append(ln)
+        res = replay.run_real({"kind": "parse", "lines": lines}, timeout=1800)
+        for ln, r in zip(lines, res["lines"]):
+            exp = OM.decode_line(ln)
+            if exp is not None:
+                insn += 1
+            if "error" in r:
+                viol.append({"input": {"line": ln, "binary": os.path.basename(b)}, "real": r, "disagreement": "the parser raised on a line printed by objdump"})
+            elif exp is not None and r.get("inst") != [exp[0], exp[1], exp[2]]:
+                viol.append({"input": {"line": ln, "binary": os.path.basename(b)}, "real": r, "expected": list(exp),
+                             "disagreement": "an instruction line printed by objdump is not decoded to (address, mnemonic, normal-form operands)"})
+            elif exp is None and "inst" in r and r["inst"][1] != "empty":
+                viol.append({"input": {"line": ln, "binary": os.path.basename(b)}, "real": r, "disagreement": "a non-instruction line yields an instruction"})
+    return {"objdump_conformance": {"binaries": len(bins), "lines": total, "instruction_lines": insn, "lines_outside_G": outside[:10],
+                                    "bound": f"objdump -d -M att of tests/binary/*, up to {max_lines} consecutive lines per binary (seeded offset)"}}, viol[:10]
+
+
+def instrumentation_identity() -> Tuple[Dict[str, Any], List[Dict[str, Any]]]:
+    """T1-T4 are the identity on concrete data: the repository's own tests pass on the instrumented modules"""
+    code = ("import sys; sys.path.insert(0, %r); import vf.instrument as I; I.install(); import pytest; "
+            "rc = pytest.main(['-q','-p','no:cacheprovider','--timeout=900']); "
+            "import vf.rt as rt; print('RTCOUNTS', rt.COUNTS)") % ROOT
+    p = subprocess.run([sys.executable, "-c", code], capture_output=True, text=True, cwd=replay.repo(),
+                       env=dict(os.environ, JASM_REPO=replay.repo(), PYTHONDONTWRITEBYTECODE="1"))
+    tail = [ln for ln in p.stdout.split("\n") if "passed" in ln or "RTCOUNTS" in ln]
+    ok = any("129 passed" in ln for ln in tail)
+    viol = [] if ok else [{"input": {"command": "pytest on the instrumented modules"}, "real": {"output": p.stdout[-800:]},
+                           "disagreement": "the repository's tests do not pass on the T1-T4 instrumented modules (the rewrites are not the identity)"}]
+    return {"instrumentation_identity": {"result": tail, "bound": "the repository's 129 baseline tests, run on the mechanically instrumented modules"}}, viol
+
+
 # --------------------------------------------------------------------------- dispatch
 QUICK = {"den": 60, "modes": 25, "macros": 60, "history": 30, "parser": 300, "validaddr": 40, "cli": 1, "binary": 1}
 THOROUGH = {"den": 2500, "modes": 400, "macros": 1500, "history": 182, "parser": 20000, "validaddr": 400, "cli": 1, "binary": 1}
@@ -806,6 +881,10 @@ def run(prop: str, tier: str, seed: int, force: bool = False) -> Tuple[Dict[str,
             plan.append("cli")
         if prop in ("C15", "C14"):
             plan.append("binary")
+        if tier == "thorough":
+            if prop in ("C08", "C09", "C10", "C16"):
+                plan.append("objdump")
+            plan.append("identity")
     else:
         plan = list(QUICK_SWEEP_PROPS.get(prop, []))
     cov: Dict[str, Any] = {}
@@ -831,6 +910,10 @@ def run(prop: str, tier: str, seed: int, force: bool = False) -> Tuple[Dict[str,
             c, v = cli_sweep(B["cli"], seed)
         elif s == "binary":
             c, v = binary_sweep(B["binary"], seed)
+        elif s == "objdump":
+            c, v = objdump_conformance(40000, seed)
+        elif s == "identity":
+            c, v = instrumentation_identity()
         else:
             continue
         cov.update(c)
